@@ -32,10 +32,13 @@ St9 == << <<<<1, 2>>, <<1, 1>>>>, <<<<1, 1>>>> >>
 St10 == << <<<<1, 3>>>>, <<<<1, 1>>>> >>
 St11 == << <<<<1, 1>>>>, <<<<1, 3>>>> >>
 St12 == << <<<<1, 4>>>>, <<<<1, 4>>>>, <<<<1, 1>>>> >>
-AllStructures == {S1, S2, S3, S4, S5, S6, S7, St8, St9, St10, St11, St12}
-ExtraStructures == {St8, St9, St12}
+\* more track fragments than samples (in the whole file, and in a prefix of it)
+St13 == << <<<<1, 2>>>>, <<<<1, 0>>>>, <<<<1, 0>>>>, <<<<1, 2>>>> >>
+St14 == << <<<<1, 2>>>>, <<<<1, 0>>>>, <<<<1, -1>>>> >>
+AllStructures == {S1, S2, S3, S4, S5, S6, S7, St8, St9, St10, St11, St12, St13, St14}
+ExtraStructures == {St8, St9, St12, St13, St14}
 QuickStructures == {S2, S5, S7, St10, St11}
-MixStructures == {S2, S3, S5, St10, St12}
+MixStructures == {S2, S3, S5, St10, St12, St13}
 TrexBoth == {<<>>, <<7>>}
 TwoTrackStructures == {S4, S5, S6}
 
